@@ -63,6 +63,27 @@ func wmap(kv ...string) string {
 
 func ws(s string) string { return "S" + hx([]byte(s)) }
 
+// rowValues: wire values of every kind a caller puts in a row
+var rowValues = []string{"D+:10:0", "D+:9:0", "D+:2:0", "D-:5:-1", "D+:0:0", "D+:100:-1", "D+:1234567890123456789012345678901234:3", "Dnan", "Dinf",
+	"S" + "3130", "S" + "39", "S" + "32", "S" + "61", "S" + "", "S" + "41", "N", "T", "F", "Ii:10", "Ii:9", "Ii8:-3", "G322e35", "A2 Ii:1 Ii:2", "A0"}
+
+// rowsBlock evaluates each formula (over the variables a and b) on many rows of differing kinds, the same parsed
+// tree serving all rows of a formula (see implEvalInner), rows in a shuffled order
+func rowsBlock(o *Out, r *rand.Rand, formulas []string, rows int) {
+	for _, f := range formulas {
+		for i := 0; i < rows; i++ {
+			a, b := rowValues[r.Intn(len(rowValues))], rowValues[r.Intn(len(rowValues))]
+			if r.Intn(3) == 0 { // same kind on both sides
+				k := a[0]
+				for j := 0; j < 20 && b[0] != k; j++ {
+					b = rowValues[r.Intn(len(rowValues))]
+				}
+			}
+			emitEval(o, f, 0, "-", wmap("a", a, "b", b), true)
+		}
+	}
+}
+
 // ---------- C04 ----------
 
 func randCoef(r *rand.Rand, digits int) string {
@@ -251,6 +272,124 @@ func suiteArith(o *Out, thorough bool, seed int64) {
 		emitEval(o, t, 0, "-", "-", true)
 		floatExitOracle(o, line, t, "-")
 	}
+	// results straddling machine boundaries (2^31, 2^32, 2^53, 2^62, 2^63, 2^64, 10^15..10^19, 2^127, 2^128): operands are
+	// synthesised so that the exact result lies within a few hundred of the boundary, on either side, both signs;
+	// literal operands and (where they fit) int64 data operands
+	{
+		var bounds []*big.Int
+		for _, e := range []uint{31, 32, 53, 62, 63, 64, 127, 128} {
+			bounds = append(bounds, new(big.Int).Lsh(big.NewInt(1), e))
+		}
+		for _, e := range []int64{15, 16, 17, 18, 19, 20, 33, 34} {
+			bounds = append(bounds, new(big.Int).Exp(big.NewInt(10), big.NewInt(e), nil))
+		}
+		nb := 60
+		if thorough {
+			nb = 4000
+		}
+		emitBoth := func(a, b *big.Int, op string) {
+			sa, sb := a.String(), b.String()
+			if a.Sign() < 0 {
+				sa = "(" + sa + ")"
+			}
+			if b.Sign() < 0 {
+				sb = "(" + sb + ")"
+			}
+			emitEval(o, sa+" "+op+" "+sb, 0, "-", "-", true)
+			if a.IsInt64() && b.IsInt64() && r.Intn(2) == 0 {
+				emitEval(o, "x "+op+" y", 0, "-", wmap("x", "Ii64:"+a.String(), "y", "Ii:"+b.String()), true)
+			}
+		}
+		for _, B := range bounds {
+			for i := 0; i < nb; i++ {
+				// a * b in (B - b, B + 2b]
+				var b *big.Int
+				switch r.Intn(3) {
+				case 0:
+					b = big.NewInt(int64(2 + r.Intn(400)))
+				case 1:
+					b = big.NewInt(int64(2 + r.Intn(100000)))
+				default:
+					b = new(big.Int).Sqrt(B)
+					b.Add(b, big.NewInt(int64(r.Intn(2000)-1000)))
+				}
+				if b.Sign() <= 0 {
+					continue
+				}
+				T := new(big.Int).Add(B, new(big.Int).Mul(b, big.NewInt(int64(r.Intn(3)))))
+				T.Add(T, big.NewInt(int64(r.Intn(3)-1)))
+				a := new(big.Int).Div(T, b)
+				na, nbg := new(big.Int).Neg(a), new(big.Int).Neg(b)
+				switch r.Intn(4) {
+				case 0:
+					emitBoth(a, b, "*")
+				case 1:
+					emitBoth(na, b, "*")
+				case 2:
+					emitBoth(b, na, "*")
+				default:
+					emitBoth(na, nbg, "*")
+				}
+				// (B - c) + (c + d), -(B - c) - (c + d)
+				c := new(big.Int).Rand(r, B)
+				if r.Intn(2) == 0 {
+					c = big.NewInt(int64(r.Intn(5000)))
+				}
+				d := big.NewInt(int64(r.Intn(5) - 2))
+				x, y := new(big.Int).Sub(B, c), new(big.Int).Add(c, d)
+				if r.Intn(2) == 0 {
+					emitBoth(x, y, "+")
+				} else {
+					emitBoth(new(big.Int).Neg(x), y, "-")
+				}
+				// exact quotients and remainders of products at the boundary
+				p := new(big.Int).Mul(a, b)
+				if r.Intn(2) == 0 {
+					emitBoth(p, b, "/")
+				} else {
+					emitBoth(p.Add(p, d), b, "%")
+				}
+			}
+		}
+		// sweep: for every small multiplier b the least product a*b that reaches the word boundary (a check of "fits a
+		// machine word" done in floating point or by bit lengths errs only on a thin band of such products)
+		for bi, e := range []uint{63, 64, 31, 32, 53} {
+			B := new(big.Int).Lsh(big.NewInt(1), e)
+			lim := 1100
+			if bi >= 2 && !thorough {
+				lim = 200
+			}
+			for b := int64(2); b < int64(lim); b++ {
+				bb := big.NewInt(b)
+				a := new(big.Int).Add(B, big.NewInt(b-1))
+				a.Div(a, bb)
+				if b%2 == 0 {
+					emitBoth(a, bb, "*")
+				} else {
+					emitBoth(new(big.Int).Neg(a), bb, "*")
+				}
+				if thorough {
+					emitBoth(bb, a, "*")
+					emitBoth(new(big.Int).Neg(a), new(big.Int).Neg(bb), "*")
+					emitBoth(new(big.Int).Sub(a, big.NewInt(1)), bb, "*")
+				}
+			}
+		}
+		// operands whose bit lengths add up to a word
+		for i := 0; i < 40*nb/60; i++ {
+			k := uint(1 + r.Intn(62))
+			a := new(big.Int).Rand(r, new(big.Int).Lsh(big.NewInt(1), k))
+			a.SetBit(a, int(k), 1)
+			w := uint(62 + r.Intn(3))
+			bq := new(big.Int).Rand(r, new(big.Int).Lsh(big.NewInt(1), w-k))
+			bq.SetBit(bq, int(w-k), 1)
+			if r.Intn(2) == 0 {
+				a.Neg(a)
+			}
+			emitBoth(a, bq, "*")
+		}
+		o.Stat("boundary-results")
+	}
 	// data values: int64 / int / float64 entering the computation
 	ints := []int64{0, 1, -1, 1 << 53, 1<<53 + 1, -(1<<53 + 1), 1<<53 - 1, 9007199254740993, math.MaxInt64, math.MinInt64, math.MaxInt64 - 1, 123456789012345678, 1 << 62, -(1 << 62) - 1}
 	floats := []float64{0.1, 0.2, 0.3, 1e22, 1e23, 5e-324, 2.2250738585072014e-308, 1.7976931348623157e308, 0.30000000000000004, 1.0 / 3.0, 123456.789, -0.0, 4.35, 1e-7, 9007199254740993}
@@ -353,6 +492,7 @@ func suiteCompare(o *Out, thorough bool, seed int64) {
 	if thorough {
 		n = 200000
 	}
+	rowsBlock(o, r, []string{"a < b", "a > b", "a <= b", "a >= b", "a == b", "a != b", "a === b", "a !== b", "[a < b, a == b, a > b]", "a < b ? 'lt' : a > b ? 'gt' : 'no'", "min(a, b) <= max(a, b)"}, 60)
 	for i := 0; i < n; i++ {
 		a, b := randOperand(r), randOperand(r)
 		if r.Intn(4) == 0 {
@@ -455,12 +595,22 @@ func snapshotOracle(o *Out, line, text, hosts, data string) {
 	if after := snap(); after != before {
 		o.Fail(line, "evaluation changed a non-$ entry of the caller's data: before "+before+" after "+after)
 	}
+	// the whole map (locals included) after the public entry point equals the map after the raw evaluation that
+	// is compared with the model: returning a result may not change what is stored
+	m2, _ := decodeVal(data, hs).(map[string]interface{})
+	r2 := formula.NewRunner()
+	r2.SetThis(m2)
+	protect(func() { r2.VerifResolveRaw(context.Background(), src.Expression) })
+	if a, b := enc(m), enc(m2); a != b {
+		o.Fail(line, "the data map after Resolve differs from the map after the same evaluation without the result conversion: "+a+" vs "+b)
+	}
 }
 
 func suiteLocals(o *Out, thorough bool, seed int64) {
 	hosts := "1:0:0:2:0:a,a:" + ws("r") + ";2:0:1:2:0:a:Ii:7"
 	shared := "A3 Ii:1 Ii:2 " + wmap("q", "Ii:5")
-	datas := []string{"-", "O0", wmap("x", "Ii:3", "y", shared, "z", shared, "f", "H1", "g", "H2", "$b", "Ii:9", "n", "N", "p", "D+:125:-1", "q", "D-:3:0")}
+	datas := []string{"-", "O0", wmap("x", "Ii:3", "y", shared, "z", shared, "f", "H1", "g", "H2", "$b", "Ii:9", "n", "N", "p", "D+:125:-1", "q", "D-:3:0"),
+		wmap("x", "Ii:3", "f", "H1", "g", "H2", "p", "D+:1234567890123456789012345678901234:-14", "q", "D-:1234567890123456789015:-1", "$b", "D+:6666666666666666666666666666666667:-33")}
 	fixed := []string{"a = 1", "1 = 2", "($a) = 1", "a.b = 1", "'s' = 1", "$a.b = 1", "x = 1", "[$a] = 1", "$a = $b = 2", "$a = 1, $a", "$a = 1, $a = $a + 1, $a",
 		"[$a = 1, $a + 1, $a = 5, $a]", "f($a = 2, $a)", "$c", "$a, $a = 1", "($a = 1) + ($a = 2) + $a", "$a = x, x", "g($a = 1, $a = 2, $a)",
 		"true ? $a = 1 : $b = 2", "$a = [1,2], $a", "$a = y, $a", "$b", "$b = $b + 1", "this.$b", "$a = null, $a", "x = ($a = 1)", "$a = (1, 2)", "$a = 1 ? 2 : 3",
@@ -484,6 +634,7 @@ func suiteLocals(o *Out, thorough bool, seed int64) {
 		for _, t := range []string{
 			"$a = 2.75, $i = " + call("$a") + ", [$a, $i]", "$a = 2.75, $b = $a, " + call("$b") + ", $a", call("p") + ", p", "$a = p, " + call("$a") + ", [p, $a]",
 			"$a = -7.5, " + call("$a") + ", $a + 0", "max($a = 1.5, 2), " + call("$a") + ", $a", "[" + call("q") + ", q, " + call("q") + "]",
+			"$a = 20/3, " + call("$a") + ", $a", "$a = 20/3, $i = " + call("$a") + ", [$a === 20/3, $i]", call("$b") + ", $b", "$a = p / 7, " + call("$a") + ", $a - p / 7",
 		} {
 			for _, d := range datas[2:] {
 				line := fmt.Sprintf("EV\t%s\t0\t%s\t%s", hx([]byte(t)), hosts, d)
@@ -492,12 +643,20 @@ func suiteLocals(o *Out, thorough bool, seed int64) {
 			}
 		}
 	}
-	for _, op := range []string{"+", "-", "*", "/", "%", "&", "|", "^", "<", "==", "&&", "||", "??"} {
-		for _, t := range []string{"$a = 2.75, $a " + op + " 2, $a", "p " + op + " q, [p, q]", "$a = p, $a " + op + " $a, [$a, p]", "max(p, q) " + op + " min(p, q), [p, q]"} {
-			d := datas[2]
+	for _, t := range []string{"p", "q", "$b", "$a = p", "$a = 20/3", "$a = 1/3, $a", "0, p", "x > 0 ? p : q", "p || 0", "$b ?? 1", "$a = $b", "[p][0]", "f(p, q), p"} {
+		for _, d := range datas[2:] {
 			line := fmt.Sprintf("EV\t%s\t0\t%s\t%s", hx([]byte(t)), hosts, d)
 			emitEval(o, t, 0, hosts, d, true)
 			snapshotOracle(o, line, t, hosts, d)
+		}
+	}
+	for _, op := range []string{"+", "-", "*", "/", "%", "&", "|", "^", "<", "==", "&&", "||", "??"} {
+		for _, t := range []string{"$a = 2.75, $a " + op + " 2, $a", "p " + op + " q, [p, q]", "$a = p, $a " + op + " $a, [$a, p]", "max(p, q) " + op + " min(p, q), [p, q]"} {
+			for _, d := range datas[2:] {
+				line := fmt.Sprintf("EV\t%s\t0\t%s\t%s", hx([]byte(t)), hosts, d)
+				emitEval(o, t, 0, hosts, d, true)
+				snapshotOracle(o, line, t, hosts, d)
+			}
 		}
 	}
 	// exhaustive small programs over a 12-lexeme alphabet
@@ -1130,5 +1289,22 @@ func suiteStrings(o *Out, thorough bool, seed int64) {
 		if obs != "parse-error" {
 			o.Fail(fmt.Sprintf("EV\t%s\t0\t-\t-", hx([]byte(s))), "an open string literal was accepted: "+s)
 		}
+	}
+	// histories: rejected literals (open after an escape, bad escapes, raw line breaks) interleaved with well-formed
+	// ones; the value of a literal may not depend on what was scanned before it
+	open := []string{"'left open\\twith an escape", "\"x\\n", "'a\\x41b\nc'", "'\\u0041 \\q", "\"\\'\r\"", "'tail\\\\", "'\\x4", "\"\\u00e9\u2028\"", "'abc\\tdef\u0085'"}
+	for round := 0; round < 40; round++ {
+		bad := open[r.Intn(len(open))]
+		if obs := emitEval(o, bad, 0, "-", "-", true); obs != "parse-error" {
+			o.Fail(fmt.Sprintf("EV\t%s\t0\t-\t-", hx([]byte(bad))), "a malformed string literal was accepted: "+bad)
+		}
+		for j := 0; j < 3; j++ {
+			var text []byte
+			for k := 0; k < 1+r.Intn(6); k++ {
+				text = append(text, syms[r.Intn(len(syms))]...)
+			}
+			check(text)
+		}
+		emitEval(o, "'p' + 'tab\\there' + \"q\\x41\"", 0, "-", "-", true)
 	}
 }
